@@ -2,4 +2,5 @@
 From Coq Require Import Extraction ExtrOcamlBasic ExtrOcamlString.
 From LC Require Import Common KeyDefs GraphDefs.
 Extraction "equiv_model.ml" pairkey key64 cantor n_of_hex n_to_hex
-  build freeze eqv has_equivalent are_equivalent model_queries model_queries_key64 heap_addr.
+  build freeze eqv has_equivalent are_equivalent model_queries model_queries_key64 heap_addr
+  run_history final_graph empty_graph.
